@@ -504,13 +504,17 @@ PROPS["C06"] = {
               "bodies/bulkheadexecutor:executor.PreExecute", "bodies/bulkheadexecutor:executor.PostExecute", "bodies/policyexecutor:BaseExecutor.Apply"],
     "required_theorems": ["Failsafe.Props.C06.inflight_le_cap", "Failsafe.Props.C06.release_exactly_once", "Failsafe.Props.C06.refused_never_release",
                           "Failsafe.Props.C06.quiescent_all_free"],
-    "diff": [COMPOSE_DIFF], "rule": COMPOSE_RULE + "; plus STRESS bulkhead: 1-3 permits, max wait {0, 0.3 ms, 5 ms}, 4x more concurrent executions than permits, sync/async, alone and under retry/timeout/hedge/fallback, context deadlines and timeouts striking while waiting or holding, a standalone permit held; monitors: in-flight <= capacity at every instant, all permits back after quiescence",
+    "diff": [COMPOSE_DIFF, {"slice": "linzbh", "recorded": True, "n_quick": 80, "n_thorough": 800, "seeds_thorough": 3, "n_search": 400, "par": 4}],
+    "rule": COMPOSE_RULE + "; linzbh slice: concurrent histories of ONE shared bulkhead (1-3 permits, max wait 0 or 150 us): 12 / 40 rounds of 2-4 goroutines x 1-2 operations from "
+            "TryAcquirePermit, AcquirePermitWithMaxWait (0 / 100 us), ReleasePermit and executions through the bulkhead as a policy (function running 0-150 us, succeeding or failing; "
+            "admission recorded as an acquire operation from call to function entry, completion as a release from function exit to return), stamped with one atomic counter; the Lean "
+            "driver checks each round for linearizability against a counting semaphore and the free permits after each round; plus STRESS bulkhead: 1-3 permits, max wait {0, 0.3 ms, 5 ms}, 4x more concurrent executions than permits, sync/async, alone and under retry/timeout/hedge/fallback, context deadlines and timeouts striking while waiting or holding, a standalone permit held; monitors: in-flight <= capacity at every instant, all permits back after quiescence",
     "runners": [stress_runner("bulkhead", "more executions in progress than the bulkhead's capacity, or permits lost/duplicated after all executions finished")],
     "assumptions": CONC_ASSUME, "modelled": ["the semaphore channel and the select statements are modelled as atomic actions per branch"],
     "manifest": {
-        "text": "Lean 4 theorems over an interleaving model with any number of executions and standalone callers: held = #holding + standalone <= capacity in every reachable state of every schedule (inductive invariant lifted over action lists); every admitted execution releases exactly once; refused or cancelled-while-waiting executions have no release enabled; all permits are back at quiescence. Tie: FACTS (select-branch tables: only semaphore-send branches return nil; PostExecute releases once and returns its argument; Apply has no exit between inner and PostExecute), DIFF of sequential stacks (free permits in the world line), STRESS monitors under real concurrency.",
+        "text": "Lean 4 theorems over an interleaving model with any number of executions and standalone callers: held = #holding + standalone <= capacity in every reachable state of every schedule (inductive invariant lifted over action lists); every admitted execution releases exactly once; refused or cancelled-while-waiting executions have no release enabled; all permits are back at quiescence. Correspondence: recorded concurrent histories of the real bulkhead (standalone calls and executions through the policy) are linearizable against the counting-semaphore model, checked by the proved search of Conc/Linearize.lean. Tie: FACTS (select-branch tables: only semaphore-send branches return nil; PostExecute releases once and returns its argument; Apply has no exit between inner and PostExecute), DIFF of sequential stacks (free permits in the world line), STRESS monitors under real concurrency.",
         "note": "Trusted: Lean kernel; fact extractor; harness monitors. Partial: the Go scheduler is sampled; channel/select semantics are modelled.",
-        "technique": "Lean 4 proof (inductive invariant, unbounded threads, all schedules) + structural facts + stress monitors"},
+        "technique": "Lean 4 proof (inductive invariant, unbounded threads, all schedules) + structural facts + linearizability of recorded histories against the semaphore model + stress monitors"},
 }
 PROPS["C04"] = {
     "props": "Failsafe.Props.C04", "ties": ["Failsafe.Tie.Breaker"],
